@@ -72,6 +72,8 @@ class Built(object):
         self.src_data = {}  # path of a Source -> the data of the values it generates
         self.root = None
         self._n = 0
+        self.templates = None  # a Built of never threaded leaf objects (see templates()), or None
+        self.specs = {}    # path -> leaf spec (templates only)
 
     def uid(self):
         self._n += 1
@@ -80,6 +82,14 @@ class Built(object):
 
 def _leaf(spec, path, b):
     kind = spec[0]
+    t = b.templates
+    if t is not None and t.specs.get(path) == spec:
+        # a sibling made from a template: a deep copy of an element that was never put into a sequence
+        el = copy.deepcopy(t.objs[path])
+        if path in t.uids:
+            b.uids[path] = t.uids[path]
+        b.objs[path] = el
+        return el
     if kind == "S":
         el = lena.meta.SetContext(spec[1], spec[2])
     elif kind == "St":
@@ -137,12 +147,25 @@ def _item(spec, path, b):
     return _leaf(spec, path, b)
 
 
-def build(tree):
+def build(tree, templates=None):
     """Fresh lena objects for *tree* (children are built before what encloses them, as Python
-    evaluates a nested constructor expression)."""
+    evaluates a nested constructor expression).  With *templates*: every leaf whose specification
+    equals the template's at the same path is a copy.deepcopy of the template's element."""
     b = Built()
+    b.templates = templates
     b.root = _item(tree, (), b)
     return b
+
+
+def templates(tree):
+    """One fresh element per leaf of *tree*, never put into any sequence: what copies are made from."""
+    t = Built()
+    for path, spec in M.leaves(tree):
+        if spec[0] in ("acc",):
+            continue
+        _leaf(spec, path, t)
+        t.specs[path] = spec
+    return t
 
 
 def _norm_cache_name(name, uid):
